@@ -13,10 +13,14 @@ from xml.sax.saxutils import escape
 ODS_NS = (
     'xmlns:office="urn:oasis:names:tc:opendocument:xmlns:office:1.0" '
     'xmlns:table="urn:oasis:names:tc:opendocument:xmlns:table:1.0" '
-    'xmlns:text="urn:oasis:names:tc:opendocument:xmlns:text:1.0"'
+    'xmlns:text="urn:oasis:names:tc:opendocument:xmlns:text:1.0" '
+    'xmlns:dc="http://purl.org/dc/elements/1.1/"'
 )
 
 ALL_ODS_FEATURES = ("colruns", "rowruns", "s", "tab", "linebreak", "spans", "paragraphs")
+# structural encodings of the same logical table: the first row(s) marked as rows to repeat when printing, rows collected
+# in (nested) outline groups, cells merged with the empty cells to their right, cells carrying an annotation (comment)
+STRUCTURE_ODS_FEATURES = ("headerrows", "rowgroups", "covered", "annotations")
 
 
 def _xml_text(text, features, rng=None):
@@ -116,12 +120,28 @@ def ods_content(sheets, features=(), encoding="UTF-8", cell_repeat_attr=None, ro
                     first_cell_run[0] = None
                 elif run > 1:
                     attr = ' table:number-columns-repeated="%d"' % run
+                covered = 0
+                if "covered" in features and run == 1 and attr == "" and row[i] != "":
+                    # merge the cell with the empty cells to its right: they become covered cells
+                    while j < len(row) and row[j] == "":
+                        j += 1
+                    covered = j - i - 1
+                    if covered:
+                        attr = ' table:number-columns-spanned="%d" table:number-rows-spanned="1"' % (covered + 1)
+                annotation = ""
+                if "annotations" in features and row[i] != "" and (i + len(row)) % 3 == 0:
+                    annotation = '<office:annotation><dc:date>2020-01-01T00:00:00</dc:date><text:p>a comment</text:p></office:annotation>'
                 if inner is None:
-                    cells.append("<table:table-cell%s/>" % attr)
+                    cells.append("<table:table-cell%s/>" % attr if not annotation else "<table:table-cell%s>%s</table:table-cell>" % (attr, annotation))
                 else:
-                    cells.append('<table:table-cell office:value-type="string"%s>%s</table:table-cell>' % (attr, inner))
+                    cells.append('<table:table-cell office:value-type="string"%s>%s%s</table:table-cell>' % (attr, annotation, inner))
+                if covered == 1:
+                    cells.append("<table:covered-table-cell/>")
+                elif covered > 1:
+                    cells.append('<table:covered-table-cell table:number-columns-repeated="%d"/>' % covered)
                 i = j
             row_xmls.append("".join(cells))
+        row_parts = []  # (index of the first logical row, xml)
         i = 0
         while i < len(row_xmls):
             j = i + 1
@@ -136,10 +156,18 @@ def ods_content(sheets, features=(), encoding="UTF-8", cell_repeat_attr=None, ro
             elif run > 1:
                 attr = ' table:number-rows-repeated="%d"' % run
             if row_xmls[i] == "":
-                parts.append("<table:table-row%s/>" % attr)
+                row_parts.append("<table:table-row%s/>" % attr)
             else:
-                parts.append("<table:table-row%s>%s</table:table-row>" % (attr, row_xmls[i]))
+                row_parts.append("<table:table-row%s>%s</table:table-row>" % (attr, row_xmls[i]))
             i = j
+        if "headerrows" in features and row_parts:
+            # the first row element holds the rows to repeat on every printed page
+            row_parts[0] = "<table:table-header-rows>%s</table:table-header-rows>" % row_parts[0]
+        if "rowgroups" in features and len(row_parts) >= 2:
+            # an outline group around the elements after the first one, with a nested group around the last one
+            inner_group = '<table:table-row-group table:display="false">%s</table:table-row-group>' % row_parts[-1] if len(row_parts) >= 3 else row_parts[-1]
+            row_parts = [row_parts[0], "<table:table-row-group>%s%s</table:table-row-group>" % ("".join(row_parts[1:-1]), inner_group)]
+        parts.extend(row_parts)
         parts.append("</table:table>")
     parts.append("</office:spreadsheet></office:body></office:document-content>")
     return "".join(parts)
